@@ -29,6 +29,12 @@ CLAIMED = {
         "note": "Trusted: z3, symx, SymRotation quaternion algebra, real dask.delayed (synchronous), real polars with Object columns. Not covered: which candidate scores best on real data; uint8 wrap-around beyond 256 candidates.",
         "ref": "DESIGN.md §4 C06",
     },
+    "C05": {
+        "text": "Every sub-volume is covered by quantifying over arg-max outcomes: the real sub-pixel routines of all four models run with a numpy whose argmax over data is an arbitrary in-range index and with opaque interpolation values. "
+                "z3 decides |shift_i| <= max_shifts_i on every path; a path ending in an exception violates 'never fails'. Refinement stage: max_shifts any real >= 0, symbolic landscape sizes; whole routines: boxes (4,4,4),(5,6,7)[,(8,8,8),(7,4,9)], max_shifts symbolic in [0,2*box) on one axis.",
+        "note": "Trusted: z3, symx, BlindNP (argmax -> arbitrary index), HybridNdi (map_coordinates on a symbolic mesh -> opaque array of the mesh's shape), _upsampled_dft output shape (conformance-tested), real numpy/scipy for concrete landscape data, exact reals for float32. Not covered: finite scores/NaN from compiled kernels (division safety is in C07).",
+        "ref": "DESIGN.md §4 C05",
+    },
 }
 
 NOT_APPLICABLE = {
